@@ -19,6 +19,14 @@ def evalsm():
     kws = {k.arg: k.value for k in call.keywords}
     tr = Tr({"self.__save_group_times": ("ctor", "bool"), "save_group_times": ("call", ("opt", "bool"))})
     v = kws.get("save_group_times")
+    if isinstance(v, ast.Name) and v.id == "save_group_times":
+        # the per-call option is completed from the constructor's BEFORE the loop:  if save_group_times is None: save_group_times = <ctor>
+        pre = [s for s in ast.walk(e) if isinstance(s, ast.If) and ast.unparse(s.test) == "save_group_times is None" and not s.orelse
+               and len(s.body) == 1 and isinstance(s.body[0], ast.Assign) and ast.unparse(s.body[0].targets[0]) == "save_group_times"]
+        stores = [n for n in ast.walk(e) if isinstance(n, ast.Name) and n.id == "save_group_times" and isinstance(n.ctx, ast.Store)]
+        if len(pre) != 1 or len(stores) != 1 or pre[0].lineno > call.lineno:
+            raise Refuse("effective save_group_times expression")
+        v = ast.IfExp(test=pre[0].test, body=pre[0].body[0].value, orelse=ast.Name(id="save_group_times", ctx=ast.Load()))
     if v is None or not isinstance(v, ast.IfExp):
         raise Refuse("effective save_group_times expression")
     cond = ast.unparse(v.test)
@@ -49,8 +57,11 @@ def evalsm():
     # key cache
     k = find_func(ev, "resulting_metric_keys", "Panoptica_Evaluator")
     ks = ast.unparse(k)
-    for need in ["if self.__resulting_metric_keys is None:", "self.__resulting_metric_keys = list(res.to_dict().keys())", "return self.__resulting_metric_keys",
-                 "save_group_times=False"]:
+    # computed once, under `if <cache> is None:` or after `if <cache> is not None: return <cache>` (normalised: list(d.keys()) is list(d))
+    if "if self.__resulting_metric_keys is None:" not in ks \
+            and "if self.__resulting_metric_keys is not None:\n        return self.__resulting_metric_keys" not in ks:
+        raise Refuse("resulting_metric_keys: the cache test is missing")
+    for need in ["self.__resulting_metric_keys = list(res.to_dict())", "return self.__resulting_metric_keys", "save_group_times=False"]:
         if need not in ks:
             raise Refuse("resulting_metric_keys: missing " + need)
     # evaluate does not assign to self
